@@ -1088,6 +1088,8 @@ func run(r *chk.Run) {
 	e2.RunImageWalk(r)
 	// rows of tables whose id lies at the edges of the 4- / 6-byte id field
 	e2.RunTableIDs(r)
+	e2.RunScale(r, "big-events", "kept-cells")
+	e2.RunNested(r)
 	if r.Violated() {
 		r.SetExhaustive(false)
 		return
@@ -1287,6 +1289,10 @@ func replay(kind string, input json.RawMessage) (bool, string) {
 		return e2.ReplayHistory(kind, input)
 	case "tableid":
 		return e2.ReplayTableID(input)
+	case "scale":
+		return e2.ReplayScale(input)
+	case "nest":
+		return e2.ReplayNest(input)
 	case "jsonopaque":
 		var in struct {
 			FieldType int  `json:"field_type"`
